@@ -26,6 +26,9 @@ def mkAdd (a b : Tree) : Except Err Tree := do pure (.node "+" "" (← a.val.add
 def mkSub (a b : Tree) : Except Err Tree := do pure (.node "-" "" (← a.val.sub b.val) a (some b))
 def mkMul (a b : Tree) : Except Err Tree := do pure (.node "*" "" (← a.val.mul b.val) a (some b))
 def mkDiv (a b : Tree) : Except Err Tree := do pure (.node "/" "" (← a.val.div b.val) a (some b))
+/-- `np_compared_with(other, "max" | "min")` -/
+def mkCompared (isMax : Bool) (a b : Tree) : Except Err Tree := do
+  pure (.node (if isMax then "max compared with" else "min compared with") "" (← a.val.npCompared isMax b.val) a (some b))
 def mkSum (a : Tree) : Except Err Tree := do pure (.node "sum" "" (← a.val.sum) a none)
 def mkAbs (a : Tree) : Except Err Tree := do pure (.node "abs" "" (← a.val.abs) a none)
 
@@ -42,6 +45,8 @@ def evalOp (op : String) (l : Val) (r : Option Val) : Option (Except Err Val) :=
   | "-", some r => some (l.sub r)
   | "*", some r => some (l.mul r)
   | "/", some r => some (l.div r)
+  | "max compared with", some r => some (l.npCompared true r)
+  | "min compared with", some r => some (l.npCompared false r)
   | "sum", none => some l.sum
   | "abs", none => some l.abs
   | _, _ => none            -- named operators without an arithmetic meaning
